@@ -855,6 +855,16 @@ def bounded_access(ctx, facts, cfg):
 
 # ------------------------------------------------------------------ (c)
 
+def home_module(fn):
+    """the module an engine's code lives in: that of the type for its methods, that of the function for the free helpers beside it"""
+    if fn.impl_self_adt:
+        return fn.impl_self_adt.rsplit('::', 1)[0] if '::' in fn.impl_self_adt else None
+    q = getattr(fn, 'defined_at', None) or fn.path
+    if q.startswith('<'):
+        return None
+    return q.rsplit('::', 1)[0] if '::' in q else None
+
+
 def unsafe_census(ctx, facts, cfg):
     R = 'C03.c-unsafe-census'
     n_ops = 0
@@ -891,7 +901,7 @@ def unsafe_census(ctx, facts, cfg):
                 g = facts.fns.get(callee)
                 okc = False
                 if g is not None:
-                    okc = bool(g.target_features) and (g.impl_self_adt == fn.impl_self_adt or fn.impl_self_adt is None and False)
+                    okc = bool(g.target_features) and home_module(g) is not None and home_module(g) == home_module(fn)
                     why = 'unsafe call of crate fn %s which is not a #[target_feature] fn of the same engine' % callee
                 else:
                     ext = facts.externs.get(callee, {})
@@ -930,7 +940,24 @@ def eval_poly(ctx, facts, cfg):
     cands = [f for f in facts.fns.values() if (f.impl_trait == 'engine::Engine' and f.name == 'eval_poly') or f.path == 'engine::Engine::eval_poly']
     for f in sorted(cands, key=lambda x: x.path):
         if (f.impl_self_adt or '').endswith('DefaultEngine'):
-            continue      # dispatcher: decided by C14
+            # dispatcher (which one is chosen is C14's business): exactly one evaluation runs on every path
+            b_ = f.body
+            ev_blocks = [bb for bb, t_ in b_.calls() if (t_['callee'].get('decl') == 'engine::Engine::eval_poly' or (t_['callee'].get('path') or '').endswith('::eval_poly'))]
+            bad_ = None
+            for x_ in b_.exits():
+                for e1 in ev_blocks:
+                    for e2 in ev_blocks:
+                        if e1 != e2 and e2 in b_.reachable_from(e1) and x_ in b_.reachable_from(e2):
+                            bad_ = (e1, e2)
+            reach_wo = b_.reachable_from(0, stop=frozenset(ev_blocks))
+            if any(x_ in reach_wo for x_ in b_.exits()):
+                ctx.violation(R, 'dispatcher-skips', '%s can return without evaluating the polynomial' % f.path, site=f.span, fn=f.path, cfg=cfg)
+            elif bad_:
+                ctx.violation(R, 'dispatcher-twice', '%s can run two evaluations in a row (%s then %s): the in-place transform would be applied twice'
+                              % (f.path, b_.term(bad_[0])['line'], b_.term(bad_[1])['line']), site=f.span, fn=f.path, cfg=cfg)
+            else:
+                ctx.ok(R, '%s:exactly-one@%s' % (f.path, cfg), {'evaluations': len(ev_blocks)})
+            continue
         n += 1
         g = f
         hops = 0
